@@ -153,6 +153,7 @@ type Gen struct {
 	ghostT   map[string]string
 	ghostGoT map[string]types.Type
 	ghostElemGoT map[string]types.Type
+	keyType  map[string]types.Type
 	specRec  map[string]bool
 	specSrc  map[string]*types.Func
 	frames   []*Frame
@@ -190,6 +191,9 @@ func (g *Gen) reset() {
 	g.ghostT = map[string]string{}
 	g.ghostGoT = map[string]types.Type{}
 	g.ghostElemGoT = map[string]types.Type{}
+	if g.keyType == nil {
+		g.keyType = map[string]types.Type{}
+	}
 	g.specRec = map[string]bool{}
 	g.specSrc = map[string]*types.Func{}
 	g.frames = nil
@@ -283,6 +287,7 @@ func (g *Gen) heapGet(st *State, key, sort string) string {
 		n = "h0_" + mangle(key)
 		g.sc.add([]string{n}, fmt.Sprintf("(declare-const %s %s)", n, sort))
 		g.heapInit[key] = n
+		g.heapWF(n, key, "top0")
 		if vals, ok := g.P.globalInit[key]; ok {
 			et := g.P.globalType[key].Underlying().(*types.Array).Elem()
 			t := fmt.Sprintf("((as const %s) %s)", sort, g.zero(et))
@@ -306,22 +311,91 @@ func (g *Gen) heapSet(st *State, key, sort, term string) {
 
 func (g *Gen) fieldKey(structT types.Type, i int) (key, sort string) {
 	u := structT.Underlying().(*types.Struct)
-	return fmt.Sprintf("F:%s.%s", typeKey(structT), u.Field(i).Name()), fmt.Sprintf("(Array Int %s)", g.sortOf(u.Field(i).Type()))
+	key = fmt.Sprintf("F:%s.%s", typeKey(structT), u.Field(i).Name())
+	g.keyType[key] = u.Field(i).Type()
+	return key, fmt.Sprintf("(Array Int %s)", g.sortOf(u.Field(i).Type()))
+}
+
+// refClass separates reference-valued contents from integers although both have sort Int.
+func (g *Gen) refClass(t types.Type) string {
+	switch t.Underlying().(type) {
+	case *types.Pointer, *types.Map, *types.Chan:
+		return "Ref"
+	case *types.Interface, *types.Signature:
+		return "Dyn"
+	}
+	return g.sortOf(t)
 }
 
 func (g *Gen) elemKey(elemT types.Type) (key, sort string) {
 	es := g.sortOf(elemT)
-	return "A:" + es, fmt.Sprintf("(Array Int (Array %s %s))", g.idxSort(), es)
+	key = "A:" + g.refClass(elemT)
+	if _, ok := g.keyType[key]; !ok {
+		g.keyType[key] = elemT
+	}
+	return key, fmt.Sprintf("(Array Int (Array %s %s))", g.idxSort(), es)
 }
 
 func (g *Gen) scalarKey(t types.Type) (key, sort string) {
 	s := g.sortOf(t)
-	return "S:" + s, fmt.Sprintf("(Array Int %s)", s)
+	key = "S:" + g.refClass(t)
+	if _, ok := g.keyType[key]; !ok {
+		g.keyType[key] = t
+	}
+	return key, fmt.Sprintf("(Array Int %s)", s)
 }
 
 func (g *Gen) globalKey(gl *ssa.Global) (key, sort string) {
 	t := gl.Type().(*types.Pointer).Elem()
 	return "G:" + gl.Pkg.Pkg.Path() + "." + gl.Name(), g.sortOf(t)
+}
+
+// allocatedIn: every reference contained in value v (of Go type t) is at most top.
+func (g *Gen) allocatedIn(v string, t types.Type, top string, depth int) string {
+	if depth > 3 {
+		return "true"
+	}
+	switch u := t.Underlying().(type) {
+	case *types.Pointer, *types.Map, *types.Chan:
+		return sx("<=", v, top)
+	case *types.Slice:
+		g.needSlice()
+		return sx("<=", sx("s_arr", v), top)
+	case *types.Struct:
+		var ps []string
+		g.sortOf(t)
+		for i := 0; i < u.NumFields(); i++ {
+			ps = append(ps, g.allocatedIn(sx(g.fieldAcc(t, i), v), u.Field(i).Type(), top, depth+1))
+		}
+		return and(ps...)
+	}
+	return "true"
+}
+
+// heapWF states, for one heap array constant, that stored references are allocated (<= top):
+// allocated objects only point to allocated objects.
+func (g *Gen) heapWF(name, key, top string) {
+	t, ok := g.keyType[key]
+	if !ok {
+		return
+	}
+	var body, binds, pat string
+	switch key[0] {
+	case 'F', 'S':
+		body = g.allocatedIn(sx("select", name, "r"), t, top, 0)
+		binds = "(r Int)"
+		pat = sx("select", name, "r")
+	case 'A':
+		body = g.allocatedIn(sx("select", sx("select", name, "r"), "i"), t, top, 0)
+		binds = fmt.Sprintf("(r Int) (i %s)", g.idxSort())
+		pat = sx("select", sx("select", name, "r"), "i")
+	default:
+		return
+	}
+	if body == "true" {
+		return
+	}
+	g.sc.addAxiom([]string{name}, fmt.Sprintf("(assert (forall (%s) (! %s :pattern (%s))))", binds, body, pat))
 }
 
 func (g *Gen) havocAllHeap(st *State) {
@@ -335,6 +409,7 @@ func (g *Gen) havocAllHeap(st *State) {
 			continue
 		}
 		st.heap[k] = g.freshConst("hv_"+k, g.universe[k])
+		g.heapWF(st.heap[k], k, st.top)
 	}
 }
 
@@ -863,6 +938,11 @@ func (g *Gen) loopHead(fr *Frame, st *State, li *loopInfo) {
 			g.assume(st, g.wf(nv, ty))
 		}
 	}
+	if eff.allocs || eff.allHeap {
+		nt := g.freshConst("top", "Int")
+		g.assume(st, sx(">=", nt, st.top))
+		st.top = nt
+	}
 	if eff.allHeap {
 		g.havocAllHeap(st)
 	} else {
@@ -877,12 +957,8 @@ func (g *Gen) loopHead(fr *Frame, st *State, li *loopInfo) {
 				continue // never referenced so far; a later pass will see it
 			}
 			st.heap[k] = g.freshConst("lh_"+k, srt)
+			g.heapWF(st.heap[k], k, st.top)
 		}
-	}
-	if eff.allocs || eff.allHeap {
-		nt := g.freshConst("top", "Int")
-		g.assume(st, sx(">=", nt, st.top))
-		st.top = nt
 	}
 	if lc != nil {
 		for _, inv := range lc.Invs {
@@ -1141,9 +1217,7 @@ func (g *Gen) unop(fr *Frame, st *State, x *ssa.UnOp) {
 		t = g.define("ld", g.sortOf(x.Type()), t)
 		if p.Kind != PCell {
 			g.assume(st, g.wf(t, x.Type()))
-			if _, isPtr := x.Type().Underlying().(*types.Pointer); isPtr {
-				g.assume(st, sx("<=", t, st.top))
-			}
+			g.assume(st, g.allocatedIn(t, x.Type(), st.top, 0))
 		}
 		fr.vals[x] = Val{T: t}
 	case token.NOT:
